@@ -29,6 +29,7 @@ RULE = (
     "gap, texts the reference loader rejects, simfiles the detected encoding cannot represent, bare carriage returns."
 )
 RULE += " " + "Added after the seeding rounds: keys that need MSD escaping in files and edit scripts; bodies in which a double-byte character with trail byte 0x5C stands in front of a separator (different component counts under cp1252 and cp932); when the text decoded under the first decoding encoding is itself rejected by the parser, opening must fail with the parser's / loader's error and change nothing (it used to be excluded)."
+RULE += " " + "Round 6: multi-value parameters with an empty first component in files ('#DISPLAYBPM::180;') and edits that set ATTACKS / DISPLAYBPM to a value starting with a colon."
 ASSUMPTIONS = [
     "CPython codecs / io.TextIOWrapper define what 'decodes' means",
     "the loader applied to a decoded string is the definition of the loaded simfile (covered by C03)",
